@@ -250,9 +250,11 @@ def load (cfg : Cfg) (ch : List Nat) (now : Nat) : File → Option Cache
 structure Writer where
   mem : Cache
   loaded : Option (Option Cache)
+  /-- `config.disable_cache_writing` (set by `new_from_peers_args` for `--local`): flushes do nothing -/
+  disabled : Bool
   deriving DecidableEq, Repr
 
-def Writer.empty : Writer := ⟨[], none⟩
+def Writer.empty : Writer := ⟨[], none, false⟩
 
 structure Sys where
   cfg : Cfg
@@ -276,6 +278,11 @@ inductive Op
   | write (i : Nat)
   /-- observable only if the write is not an atomic replace: another process sees a partial file -/
   | halfWrite (i : Nat)
+  /-- the store object is replaced by a fresh one (`BootstrapCacheStore::new` / `new_from_peers_args`). A store has
+  ONE effective path — `PeersArgs::bootstrap_cache_dir` wins over the config's own path for load, merge and write
+  alike — so a rebuilt store still talks to the same register; `first` writes an empty cache at construction,
+  `local` disables cache writing -/
+  | rebuild (i : Nat) (first : Bool) (disabled : Bool)
   /-- something outside the cache code replaces the file (crafted or corrupt content) -/
   | extFile (f : File)
   deriving Repr
@@ -299,13 +306,19 @@ def step (s : Sys) : Op → Sys
   | .add i ma ch => { s with ws := modAt (fun w => { w with mem := addAddr s.cfg ch s.now w.mem ma }) i s.ws }
   | .upd i ma ok => { s with ws := modAt (fun w => { w with mem := updAddr s.now w.mem ma ok }) i s.ws }
   | .clean i ch => { s with ws := modAt (fun w => { w with mem := cleanup s.cfg ch s.now w.mem }) i s.ws }
-  | .flushLoad i ch => { s with ws := modAt (fun w => { w with loaded := some (load s.cfg ch s.now s.file) }) i s.ws }
+  | .flushLoad i ch =>
+    { s with ws := modAt (fun w => if w.disabled then w else { w with loaded := some (load s.cfg ch s.now s.file) }) i s.ws }
   | .flushCommit i wc ch =>
-    if i < s.ws.length then
-      { s with file := .data (commitData s.cfg ch s.now wc (getW s.ws i)), ws := modAt (fun _ => Writer.empty) i s.ws }
+    if decide (i < s.ws.length) && !(getW s.ws i).disabled then
+      { s with file := .data (commitData s.cfg ch s.now wc (getW s.ws i)),
+               ws := modAt (fun w => { w with mem := [], loaded := none }) i s.ws }
     else s
   | .write i => if i < s.ws.length then { s with file := .data (getW s.ws i).mem } else s
   | .halfWrite i => if writeAtomic || !(i < s.ws.length) then s else { s with file := .garbage }
+  | .rebuild i first disabled =>
+    if i < s.ws.length then
+      { s with ws := modAt (fun _ => ⟨[], none, disabled⟩) i s.ws, file := if first then .data [] else s.file }
+    else s
   | .extFile f => { s with file := f }
 
 def run (s : Sys) : List Op → Sys
